@@ -382,7 +382,14 @@ func mergeRoots(
 
 			newTree, err := tree.Clone(ctx)
 			if err != nil {
-				if cfg.LogFunc != nil && skipUnreadable {
+				var ae awserr.Error
+				if !skipUnreadable || !errors.As(err, &ae) || ae.Code() != s3.ErrCodeNoSuchKey {
+					// Only a missing object means "vacuumed, skip it". Any
+					// other failure must not silently leave a version out
+					// of the merged view.
+					return nil, nil, 0, fmt.Errorf("merge %v: %w", key, err)
+				}
+				if cfg.LogFunc != nil {
 					cfg.LogFunc(fmt.Sprintf("skipping merge un-cloneable tree %v: %v", key, err))
 				}
 				continue
